@@ -131,6 +131,51 @@ theorem truncation_inside_frame_unfixed_refuted :
 
 end cut
 
+/-- Byte level, arbitrary input (F70b): `Decrypt` never reports the plain end of the data (`io.EOF`) for an input that
+    ends inside a frame — behind the length field, inside the ciphertext, in front of or inside the tag. Whatever the
+    bytes, an input that does not parse as whole frames is `io.ErrUnexpectedEOF` (or fails authentication). -/
+theorem decrypt_never_reports_plain_eof (C : Crypto) (s : Sess) (inp : Bytes) :
+    (decrypt C s inp).2.1 ≠ .error .eof := by
+  have hp : ∀ i : Bytes, parseFrame i ≠ .err .eof := by
+    intro i
+    match i with
+    | [] => simp [parseFrame]
+    | [_] => simp [parseFrame]
+    | a :: b :: r1 =>
+      simp only [parseFrame]
+      split
+      · simp
+      · split <;> simp
+  have hl : ∀ (n : Nat) (cnt : Nat) (i : Bytes), i.length ≤ n → decryptLoop C s.decKey cnt i ≠ .error .eof := by
+    intro n
+    induction n with
+    | zero =>
+      intro cnt i hi
+      have : i = [] := List.length_eq_zero_iff.mp (by omega)
+      subst this
+      unfold decryptLoop; simp [parseFrame]
+    | succ n ih =>
+      intro cnt i hi
+      unfold decryptLoop
+      split
+      · simp
+      · rename_i e he; intro h; simp only [Except.error.injEq] at h; subst h; exact hp i he
+      · rename_i len body tag rest hf
+        have hlt := parseFrame_rest_lt hf
+        split
+        · simp
+        · split
+          · simp
+          · have := ih (cnt + 1) rest (by omega)
+            split
+            · simp
+            · rename_i e he; intro h; simp only [Except.error.injEq] at h; subst h; exact this he
+  unfold decrypt
+  have := hl inp.length s.decCnt inp (Nat.le_refl _)
+  split
+  · simp
+  · rename_i e he; intro h; simp only [Except.error.injEq] at h; subst h; exact this he
+
 /-- Byte level, arbitrary input bytes: if Decrypt accepts, the input begins with frames sealed under the
     receiver's key with the consecutive counters from the receiver's counter — the wire format of C06 — and
     what is released is exactly their plaintext; if it fails, nothing is released and the session is unchanged.
